@@ -52,14 +52,18 @@ SendBody(b) == [i \in 1..Len(b) |-> [op |-> "send_data", len |-> b[i]]]
 SendTail(m) == (IF m.has_trailers THEN <<[op |-> "send_trailers", fields |-> m.trailers]>> ELSE <<>>) \o <<[op |-> "finish"]>>
 RecvAll == <<[op |-> "recv_body", merge |-> TRUE], [op |-> "recv_trailers"]>>
 
+\* split: "no" = the stream is used whole; "yes" = split right away; "late" = split after one piece of the body has been received
+\* (which, with a chunked transport, ends part-way through a DATA frame)
 ClientProg(q, split) ==
     LET sr == [op |-> "send_request", method |-> q.method, uri |-> q.uri, fields |-> q.fields, protocol |-> q.protocol] IN
-    IF split THEN <<sr, [op |-> "split", send |-> SendBody(q.body) \o SendTail(q), recv |-> <<[op |-> "recv_response"]>> \o RecvAll]>>
-    ELSE <<sr>> \o SendBody(q.body) \o SendTail(q) \o <<[op |-> "recv_response"]>> \o RecvAll
+    CASE split = "yes" -> <<sr, [op |-> "split", send |-> SendBody(q.body) \o SendTail(q), recv |-> <<[op |-> "recv_response"]>> \o RecvAll]>>
+      [] split = "late" -> <<sr>> \o SendBody(q.body) \o SendTail(q) \o <<[op |-> "recv_response"], [op |-> "recv_data"], [op |-> "split", send |-> <<>>, recv |-> RecvAll]>>
+      [] OTHER -> <<sr>> \o SendBody(q.body) \o SendTail(q) \o <<[op |-> "recv_response"]>> \o RecvAll
 ServerProg(r, split) ==
     LET sp == [op |-> "send_response", status |-> r.status, fields |-> r.fields] IN
-    IF split THEN <<[op |-> "resolve"], [op |-> "split", send |-> <<sp>> \o SendBody(r.body) \o SendTail(r), recv |-> RecvAll]>>
-    ELSE <<[op |-> "resolve"]>> \o RecvAll \o <<sp>> \o SendBody(r.body) \o SendTail(r)
+    CASE split = "yes" -> <<[op |-> "resolve"], [op |-> "split", send |-> <<sp>> \o SendBody(r.body) \o SendTail(r), recv |-> RecvAll]>>
+      [] split = "late" -> <<[op |-> "resolve"], [op |-> "recv_data"], [op |-> "split", send |-> <<sp>> \o SendBody(r.body) \o SendTail(r), recv |-> RecvAll]>>
+      [] OTHER -> <<[op |-> "resolve"]>> \o RecvAll \o <<sp>> \o SendBody(r.body) \o SendTail(r)
 
 Writes == IF Tier = "quick" THEN {"all", "1", "7"} ELSE {"all", "1", "2", "3", "7", "64"}
 Chunks == IF Tier = "quick" THEN {0, 1, 3, 16} ELSE {0, 1, 2, 3, 5, 16, 100}
@@ -70,15 +74,20 @@ Scn(qi, ri, wc, ws, pc, sc, ss, g) ==
      default_handler |-> ServerProg(Responses[ri], ss),
      steps |-> <<[op |-> "request", task |-> "r1", prog |-> ClientProg(Requests[qi], sc)]>>]
 
+RECURSIVE SumB(_)
+SumB(b) == IF b = <<>> THEN 0 ELSE b[1] + SumB(Tail(b))
+
 VARIABLE out
 Init == out = <<>>
 \* the full product is large; quick covers every message pair under a rotating subset of the transport behaviours
 Next == /\ out = <<>>
-        /\ \E qi \in 1..Len(Requests), ri \in 1..Len(Responses), wc \in Writes, ws \in Writes, pc \in Chunks, sc \in BOOLEAN, ss \in BOOLEAN, g \in BOOLEAN :
+        /\ \E qi \in 1..Len(Requests), ri \in 1..Len(Responses), wc \in Writes, ws \in Writes, pc \in Chunks, sc \in {"no", "yes", "late"}, ss \in {"no", "yes", "late"}, g \in BOOLEAN :
               /\ Tier = "quick" => /\ (wc = ws \/ pc = 0)
-                                   /\ (sc = ss)
+                                   /\ (sc = ss \/ (sc = "late" /\ ss = "no") \/ (sc = "no" /\ ss = "late"))
                                    /\ g = (qi % 2 = 0)
                                    /\ (Requests[qi].body # <<16384>> \/ pc \in {0, 16})
+              \* a late split needs a body piece to receive first
+              /\ (sc = "late" => SumB(Responses[ri].body) > 0) /\ (ss = "late" => SumB(Requests[qi].body) > 0)
               /\ out' = Scn(qi, ri, wc, ws, pc, sc, ss, g)
 Spec == Init /\ [][Next]_out
 Emit == out = <<>> \/ PrintT(<<"SCN", ToJson(out)>>)
